@@ -292,6 +292,27 @@ class Interp:
                 o = Obj(cn, tuple(args), {k.arg: self.ev(k.value) for k in e.keywords if k.arg}, len(self.created), getattr(e, "lineno", 0))
                 self.created.append(o)
                 return o
+        native = None
+        if isinstance(e.func, ast.Name) and isinstance(self.env.get(e.func.id), Native):
+            native = self.env[e.func.id]
+        elif isinstance(e.func, ast.Attribute) and e.keywords:
+            r_ = self.ev(e.func.value)
+            if isinstance(r_, NS) and isinstance(r_.get(e.func.attr), Native):
+                native = r_[e.func.attr]
+        if native is not None:
+            # a modelled callable (a constructor or method whose behaviour the rule supplies): positional and keyword arguments
+            a_, kw_ = [], {}
+            for a in e.args:
+                if isinstance(a, ast.Starred):
+                    return U
+                a_.append(self.ev(a))
+            for k in e.keywords:
+                if k.arg is None:
+                    return U
+                kw_[k.arg] = self.ev(k.value)
+            if any(v is U for v in a_) or any(v is U for v in kw_.values()):
+                return U
+            return native.fn(*a_, **kw_)
         if e.keywords and not (isinstance(e.func, ast.Name) and (e.func.id in ("sorted", "dict", "max", "min") or e.func.id in MODELS or
                                                                  e.func.id in self.funcs)):
             return U
